@@ -190,11 +190,11 @@ func (cs *ContractSet) parseFile(path, pkg string) error {
 		switch kw {
 		case "fileprops":
 			fileProps = strings.Fields(strings.ReplaceAll(rest, ",", " "))
-		case "func", "dep":
+		case "func", "dep", "iface":
 			cur = &Contract{Kind: kw, Name: rest, Pkg: pkg, Mode: "bv", LoopInv: map[int][]*Clause{}, LoopDec: map[int]*Clause{}, LoopMod: map[int][]string{}, Opts: map[string]string{}, File: path, Line: lineNo}
 			cur.Props = append(cur.Props, fileProps...)
 			curRule = nil
-			if kw == "func" {
+			if kw == "func" || kw == "iface" {
 				if pkg == "" {
 					return fail("func block in a deps file")
 				}
